@@ -419,8 +419,9 @@ Definition watch_close (st : store) (n : nat) : store * out :=
   end.
 
 (* Restoration.Apply* + Commit (d82b299): a fresh database (no metadata row: index 2 again) holding the
-   given rows, installed under eventLock (no writer is between its commit and its Publish), then
-   RefreshAllTopics: the publisher's generation is advanced, so every batch still in publishCh is
+   given rows, installed under eventLock (no writer is between its commit and its Publish) and,
+   since 05f9dd3, from inside RefreshAllTopicsAfter, i.e. under the publisher's lock (no Subscribe
+   between the replacement and the refresh; one step here). The refresh: the publisher's generation is advanced, so every batch still in publishCh is
    dropped when it is received (949dae4; [s_stale] counts them, [s_queue] keeps the live ones, which
    are all behind them); the cached snapshots and (2bf672d) the topic buffers are dropped and every
    subscription is force-closed.
